@@ -4,6 +4,7 @@ import json, os, re, sys
 VERIF = os.path.dirname(os.path.dirname(os.path.abspath(__file__)))
 res = json.load(open(os.path.join(VERIF, 'seeded', 'RESULTS.json')))
 rows = []
+tally = {'CAUGHT': 0, 'missed': 0, 'undecided (exit 2)': 0, 'not checked': 0}
 for s in sorted(d for d in os.listdir(os.path.join(VERIF, 'seeded')) if re.match(r'C\d+-[a-h]$', d)):
     meta = json.load(open(os.path.join(VERIF, 'seeded', s, 'meta.json')))
     what = (meta.get('summary') or '')
@@ -25,6 +26,7 @@ for s in sorted(d for d in os.listdir(os.path.join(VERIF, 'seeded')) if re.match
                 und.append('%s: passes' % p)
         verdict = 'CAUGHT' if caught else ('undecided (exit 2)' if any('passes' not in u for u in und) else 'missed')
         by = '; '.join(caught) if caught else '; '.join(und)
+    tally[verdict] = tally.get(verdict, 0) + 1
     rows.append('| %s | %s | %s | %s |' % (s, what.replace('|', '/'), verdict, by.replace('|', '/')))
 table = '| seed | change (as described by its author) | result | by / why not |\n|---|---|---|---|\n' + '\n'.join(rows)
 hp = os.path.join(VERIF, 'seeded', 'harmless', 'RESULTS.json')
@@ -41,4 +43,11 @@ a, b = '<!-- SEED-TABLE-BEGIN -->', '<!-- SEED-TABLE-END -->'
 if a in s:
     s = s[:s.index(a) + len(a)] + '\n' + table + '\n' + s[s.index(b):]
     open(p, 'w').write(s)
+ta, tb = '<!-- SEED-TALLY-BEGIN -->', '<!-- SEED-TALLY-END -->'
+s = open(p).read()
+line = '%d seeded changes: %d caught (exit 1 with a named obligation), %d missed (every related check passes), %d undecided (exit 2: lost anchor / construct outside the subset), %d not checked.' % (len(rows), tally['CAUGHT'], tally['missed'], tally['undecided (exit 2)'], tally['not checked'])
+if ta in s:
+    s = s[:s.index(ta) + len(ta)] + '\n' + line + '\n' + s[s.index(tb):]
+    open(p, 'w').write(s)
 print(table)
+print(line)
